@@ -494,7 +494,8 @@ def formatter_level(ctx, strings):
         # the same for a multi-valued (list) attribute value: every token goes through the substitution too
         if name in ("minimal", "html", "html5") and s and not any(ch.isspace() for ch in s):
             p["class"] = [s, "k"]
-            w = exc(lambda: p.decode(formatter=f))
+            fmt = cls.REGISTRY[name]
+            w = exc(lambda: p.decode(formatter=fmt))
             del p["class"]
             back = exc(BeautifulSoup, w, "html.parser") if isinstance(w, str) and not w.startswith("EXC:") else w
             el = back.find("pre") if not isinstance(back, str) else None
